@@ -24,9 +24,11 @@ import (
 
 func TestVerif_C01Pipe(t *testing.T) {
 	prop := vEnv("VERIF_PROP", "C01")
-	if prop != "C02" {
+	if prop != "C02" && prop != "C11" {
 		prop = "C01"
 	}
+	// as a job of C11 (the settings in config.toml shape the files) every aspect counts
+	asC01, asC02 := prop == "C01" || prop == "C11", prop == "C02" || prop == "C11"
 	c := vStart(t, prop, "TestVerif_C01Pipe")
 	defer c.Finish()
 	scratch := vEnv("VERIF_SCRATCH", t.TempDir())
@@ -162,13 +164,13 @@ func TestVerif_C01Pipe(t *testing.T) {
 				sq := d.seqs()
 				for k, s := range sq {
 					if k > 0 && s != sq[k-1]+1 {
-						if prop == "C01" {
+						if asC01 {
 							c.Violation("gap-or-disorder", "main.go wiring", fmt.Sprintf("%s holds %s: frame %d follows frame %d", d.Name, seqsString(sq), s, sq[k-1]))
 						}
 						return
 					}
 					if other, dup := seen[s]; dup {
-						if prop == "C01" {
+						if asC01 {
 							c.Violation("frame-written-twice", "main.go wiring", fmt.Sprintf("frame %d is in %s and in %s (%s)", s, other, d.Name, seqsString(sq)))
 						}
 						return
@@ -190,7 +192,7 @@ func TestVerif_C01Pipe(t *testing.T) {
 					if len(sq) > 0 && len(expDone[i].Seqs) > 0 && sq[0] != expDone[i].Seqs[0] {
 						kind = "wrong-first-frame"
 					}
-					if (kind == "wrong-first-frame") == (prop == "C02") || true {
+					if asC01 || asC02 {
 						c.Violation(kind, "main.go wiring", fmt.Sprintf("motion file %d holds %s, reference pipeline predicts %s (trigger %d)", i, seqsString(sq), seqsString(expDone[i].Seqs), expDone[i].Trigger))
 					}
 					return
@@ -209,19 +211,19 @@ func TestVerif_C01Pipe(t *testing.T) {
 						}
 					}
 					if host == nil || sq[len(sq)-1] > host.Seqs[len(host.Seqs)-1] {
-						if prop == "C01" {
+						if asC01 {
 							c.Violation("file-not-inside-one-recording", "main.go wiring, throttled", fmt.Sprintf("%s holds %s, which is not inside one of the processor's recordings %s", d.Name, seqsString(sq), describeRecs(exp)))
 						}
 						return
 					}
 					if sq[0] == host.Seqs[0] && sq[len(sq)-1] < host.Trigger {
-						if prop == "C02" {
+						if asC02 {
 							c.Violation("trigger-frame-not-written", "main.go wiring, throttled", fmt.Sprintf("%s holds %s: it starts the recording triggered at frame %d but ends before that frame (pre-trigger frames without the trigger frame)", d.Name, seqsString(sq), host.Trigger))
 						}
 						return
 					}
 					if sq[0] != host.Seqs[0] && sq[0] <= host.Trigger {
-						if prop == "C02" {
+						if asC02 {
 							c.Violation("wrong-first-frame", "main.go wiring, throttled", fmt.Sprintf("%s starts at frame %d inside the pre-trigger part of the recording %s (trigger %d): a file holding pre-trigger frames starts with the first of them", d.Name, sq[0], seqsString(host.Seqs), host.Trigger))
 						}
 						return
